@@ -15,6 +15,7 @@ structure OkInv (s : State) : Prop where
   nd : NoDead s
   pd : s.prodDead = false
   code : ∀ c, s.mainPc = .done c → c = 0
+  np : s.poisoned = false
 
 theorem mem_set_cases {ws : List W} {i : Nat} {v x : W} (h : x ∈ ws.set i v) : x = v ∨ x ∈ ws := by
   rcases List.mem_or_eq_of_mem_set h with h | h
@@ -27,17 +28,27 @@ theorem getD_dead_mem {ws : List W} {i : Nat} (h : ws.getD i .exited = .dead) : 
   simp at h
   rw [← h]; exact List.getElem_mem hw
 
-theorem step_ok (fate : Item → Fate) (hnd : ∀ x, fate x ≠ .die) (s : State) (st : Step)
-    (he : enabled s st = true) (hf : FlowInv fate s) (hn : 1 ≤ s.n) (h : OkInv s) :
-    OkInv (step fate s st) := by
-  obtain ⟨nd, pd, code⟩ := h
+theorem noDead_set {s : State} (nd : NoDead s) (w : Nat) (v : W) (hv : v ≠ .dead) :
+    ∀ x ∈ s.workers.set w v, x ≠ W.dead := by
+  intro x hx
+  rcases mem_set_cases hx with h | h
+  · rw [h]; exact hv
+  · exact nd x h
+
+/-- no input kills its worker and the step is not one of the two fault steps -/
+theorem step_ok (fate : Item → Fate) (size : Item → Nat) (hnd : ∀ x, fate x ≠ .die) (s : State) (st : Step)
+    (he : enabled size s st = true) (hnf : st.isFault = false) (hf : FlowInv fate s) (hn : 1 ≤ s.n)
+    (h : OkInv s) : OkInv (step fate s st) := by
+  obtain ⟨nd, pd, code, np⟩ := h
   cases st with
+  | prodDies => simp [Step.isFault] at hnf
+  | workerDies w => simp [Step.isFault] at hnf
   | prodSend =>
     simp only [step]
     split
-    · exact ⟨nd, pd, code⟩
+    · exact ⟨nd, pd, code, np⟩
     · split
-      · exact ⟨nd, pd, code⟩
+      · exact ⟨nd, pd, code, np⟩
       · rename_i hra
         exfalso
         simp only [enabled, Bool.and_eq_true, Bool.not_eq_true'] at he
@@ -58,70 +69,160 @@ theorem step_ok (fate : Item → Fate) (hnd : ∀ x, fate x ≠ .die) (s : State
         rw [List.any_eq_true]
         refine ⟨_, hm, ?_⟩
         cases hw : s.workers[0] <;> simp_all [W.alive]
-  | prodExit => exact ⟨nd, pd, code⟩
+  | prodExit => exact ⟨nd, pd, code, np⟩
   | recv w =>
     simp only [step]
     split
-    · exact ⟨nd, pd, code⟩
-    · refine ⟨?_, pd, code⟩
-      intro x hx; rcases mem_set_cases hx with h | h
-      · rw [h]; simp
-      · exact nd x h
-    · refine ⟨?_, pd, code⟩
-      intro x hx; rcases mem_set_cases hx with h | h
-      · rw [h]; simp
-      · exact nd x h
-  | finish w =>
+    · exact ⟨nd, pd, code, np⟩
+    · exact ⟨noDead_set nd w _ (by simp), pd, code, np⟩
+    · exact ⟨noDead_set nd w _ (by simp), pd, code, np⟩
+  | parsed w =>
     simp only [step]
     split
     · rename_i x hx
       have := hnd x
       cases hfx : fate x with
-      | ok =>
-        simp only []
-        refine ⟨?_, pd, code⟩
-        intro y hy; rcases mem_set_cases hy with h | h
-        · rw [h]; simp
-        · exact nd y h
-      | reject =>
-        simp only []
-        refine ⟨?_, pd, code⟩
-        intro y hy; rcases mem_set_cases hy with h | h
-        · rw [h]; simp
-        · exact nd y h
+      | ok => exact ⟨noDead_set nd w _ (by simp), pd, code, np⟩
+      | reject => exact ⟨noDead_set nd w _ (by simp), pd, code, np⟩
       | die => exact absurd hfx this
-    · exact ⟨nd, pd, code⟩
+    · exact ⟨nd, pd, code, np⟩
+  | lock w =>
+    simp only [step]
+    split
+    · rw [np]; simp only [Bool.false_eq_true, if_false]
+      exact ⟨noDead_set nd w _ (by simp), pd, code, rfl⟩
+    · exact ⟨nd, pd, code, np⟩
+  | mergeEntry w =>
+    simp only [step]
+    split
+    · exact ⟨noDead_set nd w _ (by simp), pd, code, np⟩
+    · exact ⟨nd, pd, code, np⟩
+  | unlock w =>
+    simp only [step]
+    split
+    · exact ⟨noDead_set nd w _ (by simp), pd, code, np⟩
+    · exact ⟨nd, pd, code, np⟩
   | main =>
     simp only [step]
     split
     · rw [pd]; simp only [Bool.false_eq_true, if_false]
-      exact ⟨nd, by simpa using pd, by intro c hc; simp at hc⟩
+      exact ⟨nd, by simpa using pd, by intro c hc; simp at hc, np⟩
     · split
-      · exact ⟨nd, pd, by intro c hc; simp at hc⟩
+      · exact ⟨nd, pd, by intro c hc; simp at hc, np⟩
       · split
-        · exact ⟨nd, pd, by intro c hc; simp at hc⟩
-        · exact ⟨nd, pd, by intro c hc; simp at hc⟩
+        · exact ⟨nd, pd, by intro c hc; simp at hc, np⟩
+        · exact ⟨nd, pd, by intro c hc; simp at hc, np⟩
     · split
-      · exact ⟨nd, pd, by intro c hc; simp at hc; exact hc.symm⟩
+      · exact ⟨nd, pd, by intro c hc; simp at hc; exact hc.symm, np⟩
       · split
         · rename_i hdead
           exact absurd (getD_dead_mem hdead) (fun hm => nd _ hm rfl)
-        · exact ⟨nd, pd, by intro c hc; simp at hc⟩
-    · exact ⟨nd, pd, code⟩
+        · exact ⟨nd, pd, by intro c hc; simp at hc, np⟩
+    · exact ⟨nd, pd, code, np⟩
 
-theorem run_ok (fate : Item → Fate) (hnd : ∀ x, fate x ≠ .die) {s0 s : State} {tr : List Step}
-    (hr : Run fate s0 tr s) (hf : FlowInv fate s0) (hn0 : 1 ≤ s0.n) (hok : OkInv s0) : OkInv s := by
+theorem run_ok (fate : Item → Fate) (size : Item → Nat) (hnd : ∀ x, fate x ≠ .die) {s0 s : State}
+    {tr : List Step} (hr : Run fate size s0 tr s) (hnf : ∀ st ∈ tr, st.isFault = false)
+    (hf : FlowInv fate s0) (hn0 : 1 ≤ s0.n) (hok : OkInv s0) : OkInv s := by
   induction hr with
   | nil => exact hok
   | cons he _ ih =>
     rename_i s1 st _ _ _
-    exact ih (step_flowInv fate s1 st he hf) (by rw [(step_n fate s1 st).1]; exact hn0) (step_ok fate hnd s1 st he hf hn0 hok)
+    exact ih (fun x hx => hnf x (List.mem_cons_of_mem _ hx)) (step_flowInv fate size s1 st he hf)
+      (by rw [(step_n fate s1 st).1]; exact hn0)
+      (step_ok fate size hnd s1 st he (hnf st (by simp)) hf hn0 hok)
 
-/-- without worker-killing faults every run that terminates ends with status 0 -/
-theorem no_die_exit0 (fate : Item → Fate) (hnd : ∀ x, fate x ≠ .die) (n : Nat) (hn : 1 ≤ n) (rx : Bool)
-    (items : List Item) (tr : List Step) (s : State) (h : Run fate (init n rx items) tr s)
+/-- without worker-killing inputs and without injected faults every run that terminates ends with
+status 0 -/
+theorem no_die_exit0 (fate : Item → Fate) (size : Item → Nat) (hnd : ∀ x, fate x ≠ .die) (n : Nat)
+    (hn : 1 ≤ n) (rx : Bool) (items : List Item) (tr : List Step) (s : State)
+    (h : Run fate size (init n rx items) tr s) (hnf : ∀ st ∈ tr, st.isFault = false)
     (c : Nat) (hd : s.mainPc = .done c) : c = 0 :=
-  (run_ok fate hnd h (flowInv_init fate n rx items) (by simpa [init] using hn)
-      ⟨by intro w hw; simp [init] at hw; rw [hw.2]; simp, rfl, by intro c hc; simp [init] at hc⟩).code c hd
+  (run_ok fate size hnd h hnf (flowInv_init fate n rx items) (by simpa [init] using hn)
+      ⟨by intro w hw; simp [init] at hw; rw [hw.2]; simp, rfl, by intro c hc; simp [init] at hc, rfl⟩).code c hd
+
+/-- once the producer is dead, `main` is either still waiting for it or has exited with 1 -/
+def ProdDeadInv (s : State) : Prop :=
+  s.prodDead = true → s.mainPc = .joinProd ∨ s.mainPc = .done 1
+
+theorem step_prodDeadInv (fate : Item → Fate) (size : Item → Nat) (s : State) (st : Step)
+    (he : enabled size s st = true) (hpast : s.mainPc = .joinProd ∨ s.prodDone = true ∨ s.mainPc = .done 1)
+    (hx : ¬ (s.prodDone = true ∧ s.prodDead = true))
+    (h : ProdDeadInv s) : ProdDeadInv (step fate s st) ∧
+      ¬ ((step fate s st).prodDone = true ∧ (step fate s st).prodDead = true) := by
+  cases st with
+  | prodSend =>
+    simp only [enabled, Bool.and_eq_true, Bool.not_eq_true'] at he
+    obtain ⟨⟨⟨⟨ht, hpd⟩, _⟩, _⟩, _⟩ := he
+    simp only [step]
+    split
+    · exact ⟨h, hx⟩
+    · split
+      · exact ⟨h, hx⟩
+      · refine ⟨fun _ => ?_, by simp [hpd]⟩
+        rcases hpast with h1 | h1 | h1
+        · exact Or.inl h1
+        · rw [hpd] at h1; cases h1
+        · exact Or.inr h1
+  | prodExit =>
+    simp only [enabled, Bool.and_eq_true, Bool.not_eq_true'] at he
+    exact ⟨h, by simp [step, he.1.2]⟩
+  | prodDies =>
+    simp only [enabled, Bool.and_eq_true, Bool.not_eq_true'] at he
+    obtain ⟨⟨ht, hpd⟩, _⟩ := he
+    refine ⟨fun _ => ?_, by simp [step, hpd]⟩
+    rcases hpast with h1 | h1 | h1
+    · exact Or.inl h1
+    · rw [hpd] at h1; cases h1
+    · exact Or.inr h1
+  | recv w => simp only [step]; split <;> exact ⟨h, hx⟩
+  | parsed w => simp only [step]; repeat' split
+                all_goals exact ⟨h, hx⟩
+  | lock w => simp only [step]; repeat' split
+              all_goals exact ⟨h, hx⟩
+  | mergeEntry w => simp only [step]; split <;> exact ⟨h, hx⟩
+  | unlock w => simp only [step]; split <;> exact ⟨h, hx⟩
+  | workerDies w => simp only [step]; split <;> exact ⟨h, hx⟩
+  | main =>
+    simp only [step]
+    cases hpc : s.mainPc with
+    | joinProd =>
+      simp only
+      split
+      · exact ⟨fun _ => Or.inr rfl, hx⟩
+      · rename_i hnd
+        exact ⟨fun hd => absurd hd hnd, hx⟩
+    | stops k =>
+      have hnd : s.prodDead = false := by
+        cases hd : s.prodDead with
+        | false => rfl
+        | true => rcases h hd with h1 | h1 <;> rw [hpc] at h1 <;> cases h1
+      simp only
+      repeat' split
+      all_goals exact ⟨fun hd => absurd hd (by rw [hnd]; simp), hx⟩
+    | joinWorkers i =>
+      have hnd : s.prodDead = false := by
+        cases hd : s.prodDead with
+        | false => rfl
+        | true => rcases h hd with h1 | h1 <;> rw [hpc] at h1 <;> cases h1
+      simp only
+      repeat' split
+      all_goals exact ⟨fun hd => absurd hd (by rw [hnd]; simp), hx⟩
+    | done c => simp [enabled, hpc] at he
+
+theorem prodDead_not_done0 {fate : Item → Fate} {size : Item → Nat} {s0 s : State} {tr : List Step}
+    (h : Run fate size s0 tr s) (h0 : s0.prodDead = false) (hf0 : FlowInv fate s0) :
+    s.prodDead = true → s.mainPc ≠ .done 0 := by
+  have key : ProdDeadInv s ∧ ¬ (s.prodDone = true ∧ s.prodDead = true) := by
+    have start : ProdDeadInv s0 ∧ ¬ (s0.prodDone = true ∧ s0.prodDead = true) :=
+      ⟨fun hd => absurd hd (by rw [h0]; simp), by simp [h0]⟩
+    clear h0
+    induction h with
+    | nil => exact start
+    | cons he _ ih =>
+      rename_i s1 st _ _ _
+      exact ih (step_flowInv fate size s1 st he hf0)
+        (step_prodDeadInv fate size s1 st he hf0.past start.2 start.1)
+  intro hd hdone
+  rcases key.1 hd with h1 | h1 <;> rw [hdone] at h1 <;> cases h1
 
 end Grcov.Pipeline
